@@ -161,10 +161,14 @@ class _SymNum:
         return self._obj(o, "__rsub__") if r is NotImplemented else r
 
     def __mul__(self, o):
+        if hasattr(o, "__psvc_scalar__"):
+            return NotImplemented  # let the other operand's reflected method run (symbolic timedelta)
         r = self._arith(o, "*")
         return self._obj(o, "__mul__") if r is NotImplemented else r
 
     def __rmul__(self, o):
+        if hasattr(o, "__psvc_scalar__"):
+            return NotImplemented
         r = self._arith(o, "*", True)
         return self._obj(o, "__rmul__") if r is NotImplemented else r
 
